@@ -20,6 +20,7 @@ logging.getLogger("cashews").setLevel(logging.CRITICAL + 1)
 KEYS = ["k:a", "k:b", "j:a"]
 LOCKS = ["L:a"]
 PATTERNS = ["k:*", "*:a", "*", "k:a", "j*"]
+READ_PATTERNS = ["k:*", "k:a", "j*", "k*", "j:*", "k:b*"]      # (lock keys hold raw tokens: never swept by get_match)
 CVALS = ["i1", "i2", "i-1", "i0", "t0", "t1", "t2", "none", "bytes"]
 TTLS = [None, None, None, 0, 4, 8, 16, 80]
 ADVS = [0, 1, 4, 8, 16, 40]
@@ -34,6 +35,7 @@ def gen_history(rng, nclients: int, maxlen: int, with_drops: bool = True):
     pick = rng.choice
     kinds = (["get"] * 6 + ["set"] * 5 + ["setc"] * 3 + ["getmany"] * 2 + ["exists"] * 2 + ["incr"] * 2 + ["delete"] * 2 +
              ["delmany", "delmatch", "expire", "clear", "setmany", "setlock", "unlock", "adv", "adv", "adv"] +
+             ["getmatch", "scan", "getexpire", "getexpire"] +
              (["drop", "reconnect", "reconnect"] if with_drops else []))
     while len(ops) < n:
         k = pick(kinds)
@@ -44,6 +46,12 @@ def gen_history(rng, nclients: int, maxlen: int, with_drops: bool = True):
             ops.append(["getmany", c, rng.sample(KEYS + ["k:zz"], rng.randint(1, 3))])
         elif k == "exists":
             ops.append(["exists", c, pick(KEYS + LOCKS)])
+        elif k == "getmatch":
+            ops.append(["getmatch", c, pick(READ_PATTERNS)])
+        elif k == "scan":
+            ops.append(["scan", c, pick(PATTERNS)])
+        elif k == "getexpire":
+            ops.append(["getexpire", c, pick(KEYS + LOCKS)])
         elif k == "set":
             ops.append(["set", c, pick(KEYS), pick(CVALS), pick(TTLS), "a"])
         elif k == "setc":
@@ -62,7 +70,7 @@ def gen_history(rng, nclients: int, maxlen: int, with_drops: bool = True):
         elif k == "delmatch":
             ops.append(["delmatch", c, pick(PATTERNS)])
         elif k == "expire":
-            ops.append(["expire", c, pick(KEYS), pick([4, 8, 16, 80])])
+            ops.append(["expire", c, pick(KEYS), pick([0, 4, 8, 16, 80])])      # (0: the server deletes the key, D37)
         elif k == "clear":
             ops.append(["clear", c])
         elif k == "setlock":
@@ -119,7 +127,7 @@ def model_line(op, codec: Codec) -> str:
     if n == "adv":
         return f"adv {op[1] * MS}"
     c = op[1]
-    if n in ("get", "exists", "delete"):
+    if n in ("get", "exists", "delete", "getexpire", "getmatch", "scan"):
         return f"{n} {c} {hx(op[2])}"
     if n in ("getmany", "delmany"):
         return " ".join([n, str(c)] + [hx(k) for k in op[2]])
@@ -194,6 +202,24 @@ class Runner:
         v, p = ans.split(" ")
         return v.split("=", 1)[1], p.endswith("T")
 
+    async def server_match(self, pattern: str) -> tuple[str, str]:
+        """the server's keys matching the pattern and its readable content under them (prefix stripped)"""
+        ans = self.drv.ask("smatch " + hx(PREFIX + pattern))
+        if not ans.startswith("ks="):
+            raise HarnessError(f"driver answered {ans!r} to smatch")
+        ks, ps = ans.split(" ")
+        pfx = PREFIX.encode().hex()
+
+        def strip(items):
+            out = []
+            for it in items.split(",") if items else []:
+                if not it.startswith(pfx):
+                    raise HarnessError(f"key without the prefix on the stub server: {it}")
+                out.append(it[len(pfx):])
+            return ",".join(out)
+
+        return "ks=" + strip(ks[3:]), "ps=" + strip(ps[3:])
+
     async def exec_op(self, op):
         n = op[0]
         tok = self.codec.tok
@@ -215,6 +241,18 @@ class Runner:
         if n == "exists":
             _, p = await self.server_value(op[2])
             return _bool(await b.exists(op[2])), "T" if p else "F"
+        if n == "scan":
+            want, _ = await self.server_match(op[2])
+            return "ks=" + ",".join([hx(k) async for k in b.scan(op[2])]), want
+        if n == "getmatch":
+            _, want = await self.server_match(op[2])
+            out = []
+            async for k, v in b.get_match(op[2]):
+                out.append(hx(k) + "=" + await tok(v))
+            return "ps=" + ",".join(out), want
+        if n == "getexpire":
+            # (no oracle: the answer may come from the local copy's own deadline, which the code lets differ from the server's)
+            return _int(await b.get_expire(op[2])), None
         if n == "set":
             r = await b.set(op[2], VALUES[op[3]], expire=secs(op[4]), exist={"a": None, "nx": False, "xx": True}[op[5]])
             return _bool(r), None
